@@ -114,6 +114,53 @@ PROPS = {
         thorough=plans(dict(build="dbg", nshards=16), dict(build="rel", nshards=16), dict(build="asan", nshards=16, scale=0.2), dict(build="miri", nshards=16, timeout=3000)),
         min_evaluations=150000,
     ),
+    "C06": dict(
+        technique="differential execution of lookup / lookup_addrs / lookup_all against a flat-map model of RFC 1034 §4.3.2 "
+                  "and RFC 4592 (existence = some owner at or below the name; closest encloser; topmost cut)",
+        rule="zones of 5-40 records over the label alphabet {a,b,*,c} (apex ., z., a.z., b.a.z.; IN and CH; NS at several "
+             "depths, CNAMEs, MX, empty non-terminals, wildcards under and beside cuts, case variants); every name within two "
+             "labels of any node or RDATA target, random case; each name x one of 9 types x search_below_cuts x unchecked "
+             "(unchecked only for in-zone names; names whose wildcard source owns NS are counted and excluded). Variant, RRset "
+             "contents, TTL, referral owner and NS set, source of synthesis are compared. distinct = (outcome, options, type)",
+        assumptions=COMMON_ASSUMPTIONS + ["unchecked=true is only combined with in-zone names (the contract leaves other cases undefined)"],
+        quick=plans(dict(build="dbg", nshards=16), dict(build="miri", nshards=4, timeout=900)),
+        thorough=plans(dict(build="dbg", nshards=16), dict(build="rel", nshards=16), dict(build="asan", nshards=16, scale=0.2), dict(build="miri", nshards=16, timeout=3000)),
+        min_evaluations=1000000,
+    ),
+    "C20": dict(
+        technique="history monitor: every add() mirrored into the flat model; result kinds compared; full snapshot "
+                  "(iter_by_node, iter_by_rrset, soa, ns) compared before/after rejected adds and at the end",
+        rule="add sequences of 5-40 records over a 4-label alphabet with out-of-zone owners, parent-of-apex owners, class "
+             "mismatches, TTL mismatches (incl. TTLs with the top bit set), duplicates and case variants of owners and RDATA "
+             "names; evaluations = add operations + final comparisons; distinct = (node count, RRset count, SOA count) classes",
+        assumptions=COMMON_ASSUMPTIONS,
+        quick=plans(dict(build="dbg", nshards=16), dict(build="miri", nshards=4, timeout=900)),
+        thorough=plans(dict(build="dbg", nshards=16), dict(build="rel", nshards=16), dict(build="asan", nshards=16, scale=0.2), dict(build="miri", nshards=16, timeout=3000)),
+        min_evaluations=100000,
+    ),
+    "C21": dict(
+        technique="differential execution of Zone::validate against a reference checker over the flat model (checks 2,3,5-10 "
+                  "of the module documentation), as required <= reported <= allowed",
+        rule="zones over a 4-label alphabet with 0/1/2 SOA records, apex NS present or missing, delegations with name servers "
+             "inside the child, in a sibling child, in the parent, outside; glue present/missing; wildcards owning NS; CNAME "
+             "with other data and duplicate CNAMEs; MX targets with and without addresses; both glue policies; classes IN, CH "
+             "and HS (no address types); 1/12 with malformed NS/MX RDATA. distinct = (class, policy, set of issue kinds)",
+        assumptions=COMMON_ASSUMPTIONS + ["issues that stem only from NS records occluded by a higher delegation are allowed but not required (the code documents this as an open TODO)"],
+        quick=plans(dict(build="dbg", nshards=16)),
+        thorough=plans(dict(build="dbg", nshards=16), dict(build="rel", nshards=16), dict(build="asan", nshards=16, scale=0.2), dict(build="miri", nshards=16, timeout=3000)),
+        min_evaluations=10000,
+    ),
+    "C22": dict(
+        technique="history monitor with unique entry ids: after every insert/remove, lookup and get on every probe name, "
+                  "iter() and the returned old entries are compared with a reference map",
+        rule="histories of 2-24 insert/remove operations over 9 nested names (., z., a.z., b.a.z., c.b.a.z., b.z., a.b.z., "
+             "other., A.Z.) in 3 classes with entries in all three states; after each step 27 probe names x 3 classes; plus "
+             "SingleZoneCatalog lookup/get. distinct = (history length, final entry count)",
+        assumptions=COMMON_ASSUMPTIONS,
+        quick=plans(dict(build="dbg", nshards=16), dict(build="miri", nshards=4, timeout=900)),
+        thorough=plans(dict(build="dbg", nshards=16), dict(build="rel", nshards=16), dict(build="asan", nshards=16, scale=0.2), dict(build="miri", nshards=16, timeout=3000)),
+        min_evaluations=100000,
+    ),
     "C14": dict(
         technique="differential execution against an independent RFC 1035 §4.1.4 decoder; panic monitor; Miri/ASan on the same workload",
         rule="exhaustive: every buffer of length <= 5 over the 12 significant octets {0,1,2,3,63,64,0x80,0xbf,0xc0,0xc1,0xff,'a'} "
